@@ -191,7 +191,7 @@ fn run<const N: usize>(sc: &Scenario, out: &mut Outcome) {
     }
 
     // 2. one exchange repairs (only claimed under C03's condition: states built from operations)
-    if !sc.purge_a && !sc.purge_b {
+    if !sc.purge_a && !sc.purge_b && sc.regime != "X" {
         let items = plan(sc, &mods, &rems);
         let mut a2 = a.clone();
         let cut_a = apply_items(&mut a2, sc.apply_source, &items, out);
@@ -244,9 +244,9 @@ fn run<const N: usize>(sc: &Scenario, out: &mut Outcome) {
         }
         out.state_fp = fp.finish();
     } else {
-        out.probe("exactness_only_case_with_purge");
+        out.probe(if sc.regime == "X" { "exactness_only_case_arbitrary_states" } else { "exactness_only_case_with_purge" });
     }
-    out.nontrivial = nontrivial_diff || ((sc.purge_a || sc.purge_b) && (!mods.is_empty() || !rems.is_empty()));
+    out.nontrivial = nontrivial_diff || ((sc.purge_a || sc.purge_b || sc.regime == "X") && (!mods.is_empty() || !rems.is_empty()));
     trace.u64(out.state_fp);
     out.trace_hash = trace.finish();
     out.signature = sig.finish();
@@ -264,7 +264,7 @@ impl Check for C05 {
         "E0 replica-network engine: two real OrSWotSet<1|2> replicas, diff computed on the real sets and applied in seeded splits/orders"
     }
     fn rule(&self) -> &'static str {
-        "Cases: two replicas built as in C03 (regime A: arbitrary subsets/orders/sources within one forgiveness period; regime B: multi-hour in-order gap-free prefixes), optionally purged (exactness clause only). The difference is compared with a model that lists a key iff the peer's entry is strictly newer than what the replica holds, or - nothing held - the will-apply query accepts it; then the difference is applied removal-first / modification-first / interleaved, batches in timestamp order (as the actor does) or shuffled, through source 0 or 1; re-diff must be empty and a mutual exchange (simultaneous and sequential) must equalise live ids and timestamps. Non-trivial = the difference has both a modification and a removal (or is non-empty after a purge). Distinct = hash of (regime, split, order flags, the difference's keys and origins)."
+        "Cases: two replicas built as in C03 (regime A: arbitrary subsets/orders/sources within one forgiveness period; regime B: multi-hour in-order gap-free prefixes), optionally purged, or built arbitrarily - any subsets, orders, sources over multi-hour spans, i.e. with gaps - (both: exactness clause only). The difference is compared with a model that lists a key iff the peer's entry is strictly newer than what the replica holds, or - nothing held - the will-apply query accepts it; then the difference is applied removal-first / modification-first / interleaved, batches in timestamp order (as the actor does) or shuffled, through source 0 or 1; re-diff must be empty and a mutual exchange (simultaneous and sequential) must equalise live ids and timestamps. Non-trivial = the difference has both a modification and a removal (or is non-empty for a purged / arbitrary state). Distinct = hash of (regime, split, order flags, the difference's keys and origins)."
     }
     fn assumptions(&self) -> Vec<String> {
         vec![
@@ -288,14 +288,18 @@ impl Check for C05 {
     fn generate(&self, seed: u64, idx: u64, _tier: Tier) -> Value {
         let mut rng = rng_from(case_seed(seed, idx));
         let sources = if rng.gen_bool(0.75) { 2 } else { 1 };
-        let regime = if rng.gen_bool(0.5) { "A" } else { "B" };
+        let regime = match rng.gen_range(0..10) {
+            0..=3 => "A",
+            4..=6 => "B",
+            _ => "X",
+        };
         let origins = rng.gen_range(1..=3u8);
         let nops = rng.gen_range(1..=12usize);
         let keys = rng.gen_range(1..=4u64);
         let base = gen_base(&mut rng);
         let span = if regime == "A" { rng.gen_range(8..HOUR_MS - 16) } else { rng.gen_range(HOUR_MS..8 * HOUR_MS) };
         let ops = gen_ops(&mut rng, nops, keys, origins, base, span, 0.45);
-        let builds = gen_builds(&mut rng, regime, &ops, 2, sources);
+        let builds = gen_builds(&mut rng, if regime == "X" { "A" } else { regime }, &ops, 2, sources);
         let purge = rng.gen_bool(0.2);
         let sc = Scenario {
             sources,
